@@ -29,6 +29,7 @@ theorem mem_acc_setTh {s : BSt} {k : Nat} {f : Th → Th} {i : Nat} {r : Stmt} (
   rw [acc_setTh s k f hf]; exact h
 
 theorem accMono_closed (i : Nat) (r : Stmt) : PC.Closed (fun s => r ∈ (s.th i).accepted) where
+  lastFlush := fun _ _ h => h
   siteCnt := fun _ _ h => h
   emitInj := fun _ _ _ _ _ h => h
   clock := fun _ _ h => h
